@@ -1,7 +1,27 @@
 (** Proofs about Model/FlowSend.v (C05): the credit invariants over all disciplined
     interleavings of application calls with credit frames. *)
-From QV Require Import Lib.Tac Lib.Corr Model.FlowSend.
+From QV Require Import Lib.Tac Lib.Corr Model.FlowSend Proofs.FlowSendAcc.
 Open Scope Z_scope.
+
+(** Reduce comparisons of literals ([Z.eqb] is [simpl never]). *)
+Ltac red_eqb :=
+  repeat match goal with
+  | |- context [Z.eqb (Zpos ?a) (Zpos ?b)] =>
+      let v := eval vm_compute in (Z.eqb (Zpos a) (Zpos b)) in
+      change (Z.eqb (Zpos a) (Zpos b)) with v
+  | |- context [Z.eqb Z0 (Zpos ?b)] => change (Z.eqb Z0 (Zpos b)) with false
+  | |- context [Z.eqb (Zpos ?b) Z0] => change (Z.eqb (Zpos b) Z0) with false
+  | |- context [Z.eqb Z0 Z0] => change (Z.eqb Z0 Z0) with true
+  end.
+Ltac red_eqb_in H :=
+  repeat match type of H with
+  | context [Z.eqb (Zpos ?a) (Zpos ?b)] =>
+      let v := eval vm_compute in (Z.eqb (Zpos a) (Zpos b)) in
+      change (Z.eqb (Zpos a) (Zpos b)) with v in H
+  | context [Z.eqb Z0 (Zpos ?b)] => change (Z.eqb Z0 (Zpos b)) with false in H
+  | context [Z.eqb (Zpos ?b) Z0] => change (Z.eqb (Zpos b) Z0) with false in H
+  | context [Z.eqb Z0 Z0] => change (Z.eqb Z0 Z0) with true in H
+  end.
 
 (* ------------------------------------------------------------------------------------------ *)
 (** * The stream map *)
@@ -180,26 +200,28 @@ Definition pge_params (p q : Params) : bool :=
 Definition in_map_remote (s : State) (id : Z) : bool :=
   negb (id_init id =? s.(side)) && match lookup id s.(send) with Some _ => true | None => false end.
 
-(** Application calls may name ANY stream id (the discipline "a remote stream is used only after
-    [accept] returned it" matters for [send_streams] only, which the invariant does not read). *)
-Definition app_ok (s : State) (id : Z) : bool := (0 <=? id).
+(** The application uses a remote stream that exists only after [accept] returned it. *)
+Definition app_ok (s : State) (id : Z) : bool :=
+  (0 <=? id) && (negb (in_map_remote s id) || (id_index id <? s.(next_reported_bi))).
 
 Definition is_app (c : Z) : bool := (c =? 3) || (c =? 4) || (c =? 5).
 Definition is_neutral (c : Z) : bool :=
-  (c =? 2) || (c =? 9) || (c =? 11) || (c =? 13) || (c =? 15) || (c =? 19).
+  (c =? 2) || (c =? 9) || (c =? 13) || (c =? 15) || (c =? 19) || (c =? 21).
 
 (** Admissible operations (the discipline of [Connection], see Model/FlowSend.v [wf_static]). *)
 Definition adm (g : Ghost) (s : State) (op : list Z) : bool :=
   let c := arg op 0 in
   let id := arg op 1 in
   if g.(g_phase) =? 1 then (c =? 1) && params_valid (params_of op)
+  else if c =? 21 then (g.(g_phase) =? 0) && (s.(side) =? 0)
   else if is_neutral c then true
   else if is_app c then app_ok s id && (0 <=? arg op 2)
   else if c =? 1 then (g.(g_phase) =? 0) && params_valid (params_of op) && pge_params (params_of op) g.(g_par)
   else if c =? 14 then g.(g_phase) =? 0
   else if c =? 6 then is_varint id
   else if c =? 7 then (0 <=? id) && (0 <=? arg op 2)
-  else if (c =? 8) || (c =? 10) || (c =? 17) || (c =? 18) then true
+  else if c =? 8 then 0 <=? arg op 2
+  else if (c =? 10) || (c =? 11) || (c =? 17) || (c =? 18) then true
   else if c =? 16 then (0 <=? id) && is_varint (arg op 2)
   else false.
 
@@ -217,12 +239,13 @@ Definition frame_id (k : Z) (s : State) : Z :=
 Definition gupd (g : Ghost) (s : State) (op : list Z) (s' : State) (r : list Z) : Ghost :=
   let c := arg op 0 in
   let id := arg op 1 in
-  if c =? 14 then mkGhost 1 g.(g_par) [] [] [] 0
+  if c =? 14 then mkGhost 1 g.(g_par) [] [] g.(g_ms) 0
   else if c =? 1 then
     let p := params_of op in
     if params_valid p then
       mkGhost 2 p (p.(p_max_data) :: g.(g_md)) g.(g_msd)
-              ((0, p.(p_streams_bidi)) :: (1, p.(p_streams_uni)) :: g.(g_ms)) g.(g_closed)
+              ((0, p.(p_streams_bidi)) :: (1, p.(p_streams_uni))
+               :: (if g.(g_phase) =? 1 then [] else g.(g_ms))) g.(g_closed)
     else g
   else
     let ph := if (g.(g_phase) =? 0) && (is_neutral c || (is_app c && id_local s.(side) id))
@@ -267,7 +290,7 @@ Definition early_facts (s : State) (g : Ghost) : Prop :=
   /\ (g.(g_phase) = 1 ->
         s.(next_bi) = 0 /\ s.(next_uni) = 0 /\ s.(data_sent) = 0 /\ s.(max_data) = 0
         /\ s.(unacked_data) = 0
-        /\ g.(g_md) = [] /\ g.(g_ms) = [] /\ g.(g_closed) = 0).
+        /\ g.(g_md) = [] /\ g.(g_closed) = 0).
 
 Record Inv (s : State) (g : Ghost) : Prop := mkInv {
   i_side : 0 <= s.(side) <= 1;
@@ -510,7 +533,6 @@ Proof.
     + cbn. destruct (M4 H0) as (_ & _ & Q1 & Q2 & Q3 & _). lia.
     + apply M4; assumption.
     + apply M4; assumption.
-    + apply M4; assumption.
 Qed.
 
 Lemma rest_fields s1 s : rest s1 = rest s ->
@@ -564,112 +586,6 @@ Proof.
   - intros Hp. specialize (M Hp). destruct M as (M1 & M2 & M3 & M4).
     unfold early_facts, get_next; cbn.
     split; [exact M1|]. split; [exact M2|]. split; [exact M3|]. intros Hq. contradiction.
-Qed.
-
-(* ------------------------------------------------------------------------------------------ *)
-(** * The proved machine.
-
-    The inductive theorems below cover every interleaving of
-      [write] (3) on any stream, MAX_DATA (6) with any value, [set_send_window] (13),
-      [accept] (18) and the projection (19),
-    started from ANY state satisfying the invariant (in particular from [start]).  The other
-    operations are admitted by [adm] but their preservation lemmas are not finished: see
-    [C05_full] in Props/C05.v.  [adm_core] is the restriction that is proved. *)
-Definition adm_core (g : Ghost) (s : State) (op : list Z) : bool :=
-  let c := arg op 0 in
-  adm g s op && negb (g.(g_phase) =? 1)
-  && ((c =? 3) || (c =? 6) || (c =? 13) || (c =? 18) || (c =? 19)).
-
-Definition gstep_core (sg : State * Ghost) (op : list Z) : State * Ghost :=
-  let '(s, g) := sg in
-  if adm_core g s op then
-    match apply op s with
-    | Some (s', r) => (s', gupd g s op s' r)
-    | None => (s, g)
-    end
-  else (s, g).
-
-Definition grun_core (i : ops) (sg : State * Ghost) : State * Ghost := fold_left gstep_core i sg.
-
-Ltac red_eqb :=
-  repeat match goal with
-  | |- context [Z.eqb (Zpos ?a) (Zpos ?b)] =>
-      let v := eval vm_compute in (Z.eqb (Zpos a) (Zpos b)) in
-      change (Z.eqb (Zpos a) (Zpos b)) with v
-  | |- context [Z.eqb Z0 (Zpos ?b)] => change (Z.eqb Z0 (Zpos b)) with false
-  | |- context [Z.eqb (Zpos ?b) Z0] => change (Z.eqb (Zpos b) Z0) with false
-  | |- context [Z.eqb Z0 Z0] => change (Z.eqb Z0 Z0) with true
-  end.
-
-Lemma gstep_core_inv s g op :
-  Inv s g -> Inv (fst (gstep_core (s, g) op)) (snd (gstep_core (s, g) op)).
-Proof.
-  intros I. unfold gstep_core, adm_core.
-  destruct (adm g s op) eqn:A; cbn [andb]; [|exact I].
-  destruct (g_phase g =? 1) eqn:P1; cbn [negb andb]; [exact I|].
-  destruct (arg op 0 =? 3) eqn:C3.
-  { cbn [orb]. assert (Hc : arg op 0 = 3) by lia.
-    unfold apply, gupd, adm, is_neutral, is_app in *. rewrite Hc in *. rewrite P1 in A.
-    change (3 =? 2) with false in *. change (3 =? 9) with false in *. change (3 =? 11) with false in *.
-    change (3 =? 13) with false in *. change (3 =? 15) with false in *. change (3 =? 19) with false in *.
-    change (3 =? 3) with true in *. change (3 =? 14) with false in *. change (3 =? 1) with false in *.
-    change (3 =? 6) with false in *. change (3 =? 7) with false in *. change (3 =? 8) with false in *.
-    change (3 =? 10) with false in *. change (3 =? 17) with false in *. cbn [orb andb] in *.
-    destruct (do_write (arg op 1) (arg op 2) s) as [[s' r]|] eqn:W; cbn [fst snd]; [|exact I].
-    unfold app_ok, id_local in A. unfold id_local.
-    destruct ((g_phase g =? 0) && (id_init (arg op 1) =? side s)) eqn:Ph.
-    - assert (Hg : mkGhost 0 (g_par g) (g_md g) (g_msd g) (g_ms g) (g_closed g) = g)
-        by (destruct g; cbn in *; f_equal; lia).
-      rewrite Hg. eapply write_inv; eauto; lia.
-    - pose proof (i_phase _ _ I).
-      eapply write_inv; [apply inv_phase2; exact I|exact W|lia|cbn; lia]. }
-  destruct (arg op 0 =? 6) eqn:C6.
-  { cbn [orb]. assert (Hc : arg op 0 = 6) by lia.
-    unfold apply, gupd, adm, is_neutral, is_app in *. rewrite Hc in *. rewrite P1 in A.
-    change (6 =? 2) with false in *. change (6 =? 9) with false in *. change (6 =? 11) with false in *.
-    change (6 =? 13) with false in *. change (6 =? 15) with false in *. change (6 =? 19) with false in *.
-    change (6 =? 3) with false in *. change (6 =? 4) with false in *. change (6 =? 5) with false in *.
-    change (6 =? 14) with false in *. change (6 =? 1) with false in *.
-    change (6 =? 6) with true in *. change (6 =? 7) with false in *. change (6 =? 8) with false in *.
-    change (6 =? 10) with false in *. change (6 =? 17) with false in *. cbn [orb andb] in *.
-    rewrite A. cbn [fst snd]. rewrite Bool.andb_false_r.
-    pose proof (max_data_inv s (mkGhost 2 (g_par g) (g_md g) (g_msd g) (g_ms g) (g_closed g)) (arg op 1)
-                  (inv_phase2 _ _ I)) as Hm. cbn in Hm. apply Hm; [unfold is_varint in A; lia|lia]. }
-  destruct (arg op 0 =? 13) eqn:C13.
-  { cbn [orb]. assert (Hc : arg op 0 = 13) by lia.
-    unfold apply, gupd, is_neutral, is_app. rewrite Hc. red_eqb. cbn [orb andb fst snd ok].
-    rewrite Bool.andb_true_r.
-    destruct (g_phase g =? 0) eqn:P0.
-    - assert (Hg : mkGhost 0 (g_par g) (g_md g) (g_msd g) (g_ms g) (g_closed g) = g)
-        by (destruct g; cbn in *; f_equal; lia).
-      rewrite Hg. eapply Inv_ext; [|exact I]. solve_core.
-    - eapply Inv_ext; [|apply inv_phase2; exact I]. solve_core. }
-  destruct (arg op 0 =? 18) eqn:C18.
-  { cbn [orb]. assert (Hc : arg op 0 = 18) by lia.
-    unfold apply, gupd, is_neutral, is_app. rewrite Hc. red_eqb. cbn [orb andb].
-    rewrite Bool.andb_false_r.
-    unfold do_accept.
-    destruct (norm_dir (arg op 1) =? 0); [destruct (next_remote_bi s =? next_reported_bi s)|];
-      cbn [fst snd ok]; (eapply Inv_ext; [|apply inv_phase2; exact I]); solve_core. }
-  destruct (arg op 0 =? 19) eqn:C19; cbn [orb]; [|exact I].
-  assert (Hc : arg op 0 = 19) by lia.
-  unfold apply, gupd, is_neutral, is_app. rewrite Hc. red_eqb. cbn [orb andb].
-  rewrite Bool.andb_true_r.
-  destruct (observe s); cbn [fst snd ok]; [|exact I].
-  destruct (g_phase g =? 0) eqn:P0.
-  - assert (Hg : mkGhost 0 (g_par g) (g_md g) (g_msd g) (g_ms g) (g_closed g) = g)
-      by (destruct g; cbn in *; f_equal; lia).
-    rewrite Hg. exact I.
-  - apply inv_phase2; exact I.
-Qed.
-
-Theorem grun_core_inv : forall i s g, Inv s g ->
-  Inv (fst (grun_core i (s, g))) (snd (grun_core i (s, g))).
-Proof.
-  induction i as [|op t IH]; intros s g I; [exact I|].
-  unfold grun_core in *. cbn [fold_left].
-  pose proof (gstep_core_inv s g op I) as H. destruct (gstep_core (s, g) op) as [s1 g1].
-  apply IH. exact H.
 Qed.
 
 (* ------------------------------------------------------------------------------------------ *)
@@ -754,14 +670,6 @@ Qed.
 (* ------------------------------------------------------------------------------------------ *)
 (** * Consequences *)
 
-Theorem core_reachable_inv sd mrb sw p0 i s g :
-  0 <= sd <= 1 -> params_valid p0 = true ->
-  grun_core i (start sd mrb sw p0) = (s, g) -> Inv s g.
-Proof.
-  intros Hs Hv R. pose proof (grun_core_inv i _ _ (inv_start sd mrb sw p0 Hs Hv)) as H.
-  unfold start in *. cbn [fst snd] in H. rewrite R in H. exact H.
-Qed.
-
 (** The exact amount a [write] accepts. *)
 Lemma write_exact s id n x limit :
   write_limit s = Some limit -> lookup id s.(send) = Some (Some x) ->
@@ -818,4 +726,872 @@ Proof.
        repeat match goal with |- context [if is_pending ?q then _ else _] => destruct (is_pending q) end;
        cbn; repeat split; try lia;
        try (intros w Hw; discriminate); try (intros w Hw; injection Hw as <-; lia).
+Qed.
+
+(* ------------------------------------------------------------------------------------------ *)
+(** * Preservation for the remaining operations *)
+
+Ltac st := unfold put, push_pending in *; autorewrite with st in *.
+Ltac core_eq :=
+  unfold core, put, push_pending, set_next, set_max, set_blocked;
+  repeat match goal with |- context [if ?c then _ else _] => destruct c end;
+  autorewrite with st; reflexivity.
+
+Lemma early_facts_ext s s' g :
+  core s = core s' -> early_facts s g -> early_facts s' g.
+Proof.
+  unfold core. intros H. injection H as H1 H2 H3 H4 H5 H6 H7 H8 H9 H10 H11 H12.
+  unfold early_facts, get_next. rewrite <- H1, <- H2, <- H3, <- H4, <- H5, <- H9, <- H10, <- H11, <- H12.
+  auto.
+Qed.
+
+Lemma inv_unacked s g v :
+  Inv s g -> 0 <= v -> g.(g_phase) <> 1 -> Inv (set_unacked_data v s) g.
+Proof.
+  intros [A B C D E1 F G H I J K1 L M] Hv Hp.
+  constructor; unfold get_next, get_max in *; st; auto.
+  intros Hq. specialize (M Hq). unfold early_facts, get_next in *. st.
+  destruct M as (M1 & M2 & M3 & M4). repeat split; auto; try (apply M3; assumption); contradiction.
+Qed.
+
+Lemma inv_remove s g id x :
+  Inv s g -> lookup id s.(send) = Some (Some x) ->
+  Inv (set_send (remove id s.(send)) s)
+      (mkGhost 2 g.(g_par) g.(g_md) g.(g_msd) g.(g_ms) (g.(g_closed) + x.(s_offset))).
+Proof.
+  intros [A B C D E1 F G H I J K1 L M] Lk.
+  constructor; unfold get_next, get_max, delivered_stream_limit in *; st; cbn; auto; try lia.
+  - rewrite sum_off_remove, Lk. cbn [offo]. lia.
+  - intros k y Ly. destruct (Z.eq_dec k id) as [->|Hn].
+    + rewrite lookup_remove_eq in Ly by assumption. discriminate.
+    + rewrite lookup_remove_neq in Ly by assumption. apply H. exact Ly.
+  - apply NoDup_remove. exact J.
+  - intros k Hk. apply K1. eapply keys_remove_subset. exact Hk.
+Qed.
+
+Ltac destr_if :=
+  repeat match goal with
+  | H : context [if ?c then _ else _] |- _ => destruct c eqn:?
+  | |- context [if ?c then _ else _] => destruct c eqn:?
+  end.
+
+Lemma inv_open s g d :
+  Inv s g -> g.(g_phase) <> 1 -> 0 <= d <= 1 -> get_next d s < get_max d s ->
+  lookup (sid s.(side) d (get_next d s)) s.(send) = None ->
+  Inv (set_send (insert (sid s.(side) d (get_next d s)) None s.(send))
+         (set_next d (get_next d s + 1) s)) g.
+Proof.
+  intros I Hp1 Hd Hlt Ln.
+  pose proof (i_side _ _ I) as Hs.
+  destruct (i_cnt _ _ I d Hd) as (Hn & Hk).
+  remember (sid (side s) d (get_next d s)) as id eqn:Eid.
+  assert (Hii : id_init id = side s) by (subst id; apply id_init_sid; lia).
+  assert (Hid : id_dir id = d) by (subst id; apply id_dir_sid; lia).
+  assert (Hix : id_index id = get_next d s) by (subst id; apply id_index_sid; lia).
+  assert (Hid0 : 0 <= id) by (subst id; unfold sid; lia).
+  assert (Hinj : forall d0 i, 0 <= d0 <= 1 -> 0 <= i -> sid (side s) d0 i = id -> d0 = d /\ i = get_next d s).
+  { intros d0 i H1 H2 H3. subst id. unfold sid in H3. lia. }
+  destruct I as [A B C D E1 F G H I J K1 L M].
+  assert (Hcase : d = 0 \/ d = 1) by lia.
+  constructor; auto.
+  all: unfold early_facts in *; unfold set_next, get_next, get_max in *.
+  all: destruct Hcase as [Hc|Hc]; rewrite Hc in *;
+       change (0 =? 0) with true in *; change (1 =? 0) with false in *; cbv iota in *; st; auto.
+  all: try (rewrite sum_off_insert_none; assumption).
+  all: try (intros k x Lk; rewrite lookup_insert in Lk by assumption;
+            destruct (k =? id); [discriminate|apply H; exact Lk]).
+  all: try (intros d0 Hd0; specialize (I d0 Hd0); destr_if; lia).
+  all: try (apply NoDup_insert; assumption).
+  all: try (intros k Hk'; apply (proj1 (keys_insert k id None _)) in Hk'; destruct Hk' as [Hk'|Hk'];
+            [subst k; split; [lia|intros _; rewrite Hid, Hix; red_eqb; cbv iota; lia]
+            |destruct (K1 k Hk') as (K2 & K3); split; [exact K2|];
+             intros Hq; specialize (K3 Hq); destr_if; lia]).
+  all: intros Hp; specialize (M Hp); destruct M as (M1 & M2 & M3 & M4);
+       (split; [|split; [exact M2|split; [|intros Hq; contradiction]]]).
+  all: try (intros k v Lk Hr; rewrite lookup_insert in Lk by assumption;
+            destruct (k =? id) eqn:Ek; [assert (k = id) by lia; subst k; congruence|eapply M1; eassumption]).
+  all: intros Hq; destruct (M3 Hq) as (Q1 & Q2 & Q3); (split; [exact Q1|split; [exact Q2|]]).
+  all: intros d0 i Hd0 Hi; rewrite lookup_insert by assumption.
+  all: destruct (sid (side s) d0 i =? id) eqn:Ek; [discriminate|].
+  all: apply Q3; [exact Hd0|].
+  all: assert (Hx : sid (side s) d0 i <> id) by lia.
+  all: destr_if; try lia.
+  all: unfold sid in *; lia.
+Qed.
+
+(** Ghost bookkeeping *)
+Ltac gcbn := cbn [g_phase g_par g_md g_msd g_ms g_closed] in *.
+Lemma kmax_cons k k' v l :
+  kmax k ((k', v) :: l) = if k' =? k then Z.max v (kmax k l) else kmax k l.
+Proof. unfold kmax. cbn [filter fst]. destruct (k' =? k); reflexivity. Qed.
+
+Lemma kmax_nonneg k l : 0 <= kmax k l.
+Proof.
+  unfold kmax, lmax. induction (map snd (filter (fun kv : Z * Z => fst kv =? k) l)) as [|a t IH];
+    cbn [fold_right]; lia.
+Qed.
+
+Lemma inv_ghost_msd s g id v :
+  Inv s g -> g.(g_phase) = 2 ->
+  Inv s (mkGhost 2 g.(g_par) g.(g_md) ((id, v) :: g.(g_msd)) g.(g_ms) g.(g_closed)).
+Proof.
+  intros [A B C D E1 F G H I J K1 L M] Hp.
+  constructor; gcbn; auto; try lia.
+  intros k x Lk. destruct (H k x Lk) as (H1 & H2). split; [exact H1|].
+  unfold delivered_stream_limit in *. gcbn. rewrite kmax_cons. destruct (id =? k); lia.
+Qed.
+
+Lemma inv_ghost_ms_noop s g d c :
+  Inv s g -> g.(g_phase) = 2 -> 0 <= d <= 1 -> c <= get_max d s ->
+  Inv s (mkGhost 2 g.(g_par) g.(g_md) g.(g_msd) ((d, c) :: g.(g_ms)) g.(g_closed)).
+Proof.
+  intros [A B C D E1 F G H I J K1 L M] Hp Hd Hc.
+  constructor; gcbn; auto; try lia.
+  intros d0 Hd0. destruct (I d0 Hd0) as (I1 & I2). split; [exact I1|].
+  rewrite kmax_cons. destruct (d =? d0) eqn:E; [|exact I2].
+  assert (d = d0) by lia. subst d0. lia.
+Qed.
+
+Lemma inv_max_streams s g d c :
+  Inv s g -> g.(g_phase) = 2 -> 0 <= d <= 1 -> get_max d s < c ->
+  Inv (set_max d c s) (mkGhost 2 g.(g_par) g.(g_md) g.(g_msd) ((d, c) :: g.(g_ms)) g.(g_closed)).
+Proof.
+  intros [A B C D E1 F G H I J K1 L M] Hp Hd Hc.
+  assert (Hcase : d = 0 \/ d = 1) by lia.
+  constructor; gcbn; auto; try lia.
+  all: unfold set_max, get_next, get_max, delivered_stream_limit in *.
+  all: destruct Hcase as [Hc0|Hc0]; rewrite Hc0 in *;
+       change (0 =? 0) with true in *; change (1 =? 0) with false in *; cbv iota in *; st; auto.
+  all: intros d0 Hd0; destruct (I d0 Hd0) as (I1 & I2); rewrite kmax_cons;
+       destruct (d0 =? 0) eqn:E0; red_eqb; cbv iota.
+  all: try (assert (d0 = 0) by lia; subst d0); try (assert (d0 = 1) by lia; subst d0); red_eqb; cbv iota; lia.
+Qed.
+
+(** [set_params]: the fields the invariant reads, by computation. *)
+Lemma sp_side p s : side (do_set_params p s) = side s. Proof. reflexivity. Qed.
+Lemma sp_max_data p s : max_data (do_set_params p s) = Z.max (max_data s) (p_max_data p). Proof. reflexivity. Qed.
+Lemma sp_data_sent p s : data_sent (do_set_params p s) = data_sent s. Proof. reflexivity. Qed.
+Lemma sp_unacked p s : unacked_data (do_set_params p s) = unacked_data s. Proof. reflexivity. Qed.
+Lemma sp_send p s : send (do_set_params p s) = set_remote_limits (side s) (p_sd_bidi_local p) (send s). Proof. reflexivity. Qed.
+Lemma sp_sd_uni p s : sd_uni (do_set_params p s) = p_sd_uni p. Proof. reflexivity. Qed.
+Lemma sp_sd_bl p s : sd_bidi_local (do_set_params p s) = p_sd_bidi_local p. Proof. reflexivity. Qed.
+Lemma sp_sd_br p s : sd_bidi_remote (do_set_params p s) = p_sd_bidi_remote p. Proof. reflexivity. Qed.
+Lemma sp_next_bi p s : next_bi (do_set_params p s) = next_bi s. Proof. reflexivity. Qed.
+Lemma sp_next_uni p s : next_uni (do_set_params p s) = next_uni s. Proof. reflexivity. Qed.
+Lemma sp_max_bi p s : max_bi (do_set_params p s) = p_streams_bidi p. Proof. reflexivity. Qed.
+Lemma sp_max_uni p s : max_uni (do_set_params p s) = p_streams_uni p. Proof. reflexivity. Qed.
+Global Hint Rewrite sp_side sp_max_data sp_data_sent sp_unacked sp_send sp_sd_uni sp_sd_bl sp_sd_br
+  sp_next_bi sp_next_uni sp_max_bi sp_max_uni : sp.
+
+Lemma In_lookup k v m : NoDup (keys m) -> In (k, v) m -> lookup k m = Some v.
+Proof.
+  induction m as [|[a w] t IH]; cbn [keys map fst lookup In]; intros N Hin; [tauto|].
+  inversion N as [|? ? Hn Hd]; subst. destruct Hin as [E|Hin].
+  - injection E as -> ->. rewrite Z.eqb_refl. reflexivity.
+  - destruct (a =? k) eqn:Ea.
+    + exfalso. apply Hn. assert (a = k) by lia. subst a. change (In (fst (k, v)) (map fst t)).
+      apply in_map. exact Hin.
+    + apply IH; assumption.
+Qed.
+
+Lemma lookup_In k v m : lookup k m = Some v -> In (k, v) m.
+Proof.
+  induction m as [|[a w] t IH]; cbn [lookup In]; [discriminate|].
+  destruct (a =? k) eqn:Ea.
+  - intros E. injection E as ->. left. f_equal. lia.
+  - intros E. right. apply IH. exact E.
+Qed.
+
+Lemma set_remote_limits_id sd lim m :
+  NoDup (keys m) ->
+  (forall id v, lookup id m = Some v -> id_init id <> sd -> v = None) ->
+  set_remote_limits sd lim m = m.
+Proof.
+  intros N H. unfold set_remote_limits.
+  rewrite <- (map_id m) at 2. apply map_ext_in. intros [k v] Hin.
+  destruct v as [x|]; [|reflexivity].
+  destruct ((id_dir k =? 0) && negb (id_init k =? sd)) eqn:E; [|reflexivity].
+  exfalso. assert (Hl := In_lookup _ _ _ N Hin).
+  assert (id_init k <> sd) by lia. specialize (H _ _ Hl H0). discriminate.
+Qed.
+
+Lemma lmax_cons v l : lmax (v :: l) = Z.max v (lmax l).
+Proof. reflexivity. Qed.
+
+(** 0-RTT accepted: parameters that are at least the remembered ones. *)
+Lemma inv_params_accept s g p :
+  Inv s g -> g.(g_phase) = 0 -> params_valid p = true -> pge_params p g.(g_par) = true ->
+  Inv (do_set_params p s)
+      (mkGhost 2 p (p.(p_max_data) :: g.(g_md)) g.(g_msd)
+               ((0, p.(p_streams_bidi)) :: (1, p.(p_streams_uni)) :: g.(g_ms)) g.(g_closed)).
+Proof.
+  intros I Hp Hv Hge.
+  destruct I as [A B C D E1 F G H I J K1 L M].
+  destruct (M ltac:(lia)) as (M1 & M2 & M3 & _). destruct (M3 Hp) as (Q1 & Q2 & Q3).
+  pose proof (set_remote_limits_id (side s) (p_sd_bidi_local p) _ J M1) as Hrl.
+  unfold pge_params in Hge. unfold params_valid, is_varint in Hv, C.
+  constructor; gcbn; unfold get_next, get_max, delivered_stream_limit in *;
+    autorewrite with sp; rewrite ?Hrl; auto; try lia.
+  - rewrite lmax_cons. lia.
+  - intros k x Lk. destruct (H k x Lk) as (X1 & X2). split; [exact X1|].
+    rewrite M2 in *. unfold kmax, lmax in *. cbn [filter map fold_right] in *.
+    unfold par_for in *. gcbn. destr_if; lia.
+  - intros d Hd. destruct (I d Hd) as (I1 & I2). rewrite !kmax_cons.
+    assert (d = 0 \/ d = 1) as [Hd0|Hd0] by lia; rewrite Hd0 in *; red_eqb; cbv iota in *;
+      change (0 =? 0) with true in *; change (1 =? 0) with false in *; cbv iota in *; lia.
+Qed.
+
+(** After a rejection: any parameters. *)
+Lemma inv_params_fresh s g p :
+  Inv s g -> g.(g_phase) = 1 -> params_valid p = true ->
+  Inv (do_set_params p s)
+      (mkGhost 2 p (p.(p_max_data) :: g.(g_md)) g.(g_msd)
+               [(0, p.(p_streams_bidi)); (1, p.(p_streams_uni))] g.(g_closed)).
+Proof.
+  intros I Hp Hv.
+  destruct I as [A B C D E1 F G H I J K1 L M].
+  destruct (M ltac:(lia)) as (M1 & M2 & _ & M4).
+  destruct (M4 Hp) as (N1 & N2 & N3 & N4 & N5 & N6 & N7).
+  pose proof (set_remote_limits_id (side s) (p_sd_bidi_local p) _ J M1) as Hrl.
+  unfold params_valid, is_varint in Hv.
+  constructor; gcbn; unfold get_next, get_max, delivered_stream_limit in *;
+    autorewrite with sp; rewrite ?Hrl; auto; try lia.
+  - rewrite lmax_cons, N6. unfold lmax. cbn [fold_right]. lia.
+  - intros k x Lk. exfalso.
+    assert (Hin : In k (keys (send s))).
+    { change (In (fst (k, Some x)) (map fst (send s))). apply in_map. apply lookup_In. exact Lk. }
+    destruct (K1 k Hin) as (K2 & K3).
+    destruct (Z.eq_dec (id_init k) (side s)) as [El|El].
+    + specialize (K3 El). unfold id_index in K3. destr_if; lia.
+    + specialize (M1 _ _ Lk El). discriminate.
+  - intros d Hd. rewrite kmax_two by lia. destr_if; lia.
+Qed.
+
+(** [zero_rtt_rejected] *)
+Definition is_loc (sd d : Z) (n : nat) (k : Z) : Prop :=
+  exists i, 0 <= i < Z.of_nat n /\ k = sid sd d i.
+
+Lemma remove_locals_spec sd d n : forall m m',
+  remove_locals sd d n m = Some m' -> NoDup (keys m) ->
+  NoDup (keys m')
+  /\ (forall k, is_loc sd d n k -> lookup k m' = None)
+  /\ (forall k, ~ is_loc sd d n k -> lookup k m' = lookup k m).
+Proof.
+  induction n as [|n IH]; intros m m' R N; cbn [remove_locals] in R.
+  - injection R as <-. split; [exact N|]. split; [|auto].
+    intros k (i & Hi & _). lia.
+  - destruct (remove_locals sd d n m) as [m1|] eqn:R1; [|discriminate].
+    destruct (IH m m1 R1 N) as (N1 & A1 & B1).
+    destruct (lookup (sid sd d (Z.of_nat n)) m1) eqn:L1; [|discriminate].
+    injection R as <-. split; [apply NoDup_remove; exact N1|]. split.
+    + intros k (i & Hi & Ek). subst k. destruct (Z.eq_dec i (Z.of_nat n)) as [Ei|Hn]; [subst i|].
+      * apply lookup_remove_eq. exact N1.
+      * rewrite lookup_remove_neq by (unfold sid; lia). apply A1. exists i. split; [lia|reflexivity].
+    + intros k Hk. rewrite lookup_remove_neq.
+      * apply B1. intros (i & Hi & E). apply Hk. exists i. split; [lia|exact E].
+      * intros E. apply Hk. exists (Z.of_nat n). split; [lia|exact E].
+Qed.
+
+Lemma remove_locals_some sd d n : forall m,
+  (forall i, 0 <= i < Z.of_nat n -> lookup (sid sd d i) m <> None) -> NoDup (keys m) ->
+  exists m', remove_locals sd d n m = Some m'.
+Proof.
+  induction n as [|n IH]; intros m H N; cbn [remove_locals]; [eexists; reflexivity|].
+  destruct (IH m) as (m1 & R1); [intros i Hi; apply H; lia|exact N|].
+  rewrite R1. destruct (remove_locals_spec _ _ _ _ _ R1 N) as (_ & _ & B1).
+  rewrite B1.
+  - destruct (lookup (sid sd d (Z.of_nat n)) m) eqn:L; [eexists; reflexivity|].
+    exfalso. apply (H (Z.of_nat n)); [lia|exact L].
+  - intros (i & Hi & E). unfold sid in E. lia.
+Qed.
+
+Lemma sum_off_none m : (forall k v, In (k, v) m -> v = None) -> sum_off m = 0.
+Proof.
+  induction m as [|[k v] t IH]; intros H; cbn [sum_off]; [reflexivity|].
+  rewrite (H k v) by (left; reflexivity). cbn [offo]. rewrite IH; [reflexivity|].
+  intros k' v' Hin. apply (H k'). right. exact Hin.
+Qed.
+
+Lemma in_keys_lookup k m : In k (keys m) -> lookup k m <> None.
+Proof. intros Hin Hn. apply lookup_none_keys in Hn. contradiction. Qed.
+
+Lemma lookup_in_keys k v m : lookup k m = Some v -> In k (keys m).
+Proof.
+  intros L. change (In (fst (k, v)) (map fst m)). apply in_map. apply lookup_In. exact L.
+Qed.
+
+Lemma local_is_loc s g k :
+  Inv s g -> In k (keys s.(send)) -> id_init k = s.(side) ->
+  is_loc s.(side) 0 (Z.to_nat s.(next_bi)) k \/ is_loc s.(side) 1 (Z.to_nat s.(next_uni)) k.
+Proof.
+  intros I Hin Hl. destruct (i_keys _ _ I k Hin) as (K2 & K3). specialize (K3 Hl).
+  pose proof (sid_decompose k K2) as Hd. rewrite Hl in Hd.
+  unfold get_next in K3. unfold is_loc.
+  assert (0 <= id_index k) by (unfold id_index; lia).
+  assert (id_dir k = 0 \/ id_dir k = 1) as [E|E] by (unfold id_dir; lia); rewrite E in *;
+    red_eqb_in K3; cbv iota in K3.
+  - left. exists (id_index k). split; [lia|exact Hd].
+  - right. exists (id_index k). split; [lia|exact Hd].
+Qed.
+
+Lemma reject_some s g :
+  Inv s g -> g.(g_phase) = 0 -> exists s', do_reject s = Some s'.
+Proof.
+  intros I Hp. destruct (i_early _ _ I ltac:(lia)) as (_ & _ & M3 & _).
+  destruct (M3 Hp) as (_ & _ & Q3).
+  destruct (i_cnt _ _ I 0 ltac:(lia)) as (N0 & _). destruct (i_cnt _ _ I 1 ltac:(lia)) as (N1 & _).
+  unfold get_next in *. red_eqb_in N0. red_eqb_in N1. cbv iota in *.
+  unfold do_reject, reject_with.
+  destruct (remove_locals_some (side s) 0 (Z.to_nat (next_bi s)) (send s)) as (m1 & R1).
+  { intros i Hi. apply (Q3 0 i); [lia|]. red_eqb. cbv iota. lia. }
+  { exact (i_nodup _ _ I). }
+  rewrite R1. destruct (remove_locals_spec _ _ _ _ _ R1 (i_nodup _ _ I)) as (Nd1 & A1 & B1).
+  destruct (remove_locals_some (side s) 1 (Z.to_nat (next_uni s)) m1) as (m2 & R2).
+  { intros i Hi. rewrite B1.
+    - apply (Q3 1 i); [lia|]. red_eqb. cbv iota. lia.
+    - intros (j & Hj & E). unfold sid in E. lia. }
+  { exact Nd1. }
+  rewrite R2. eexists. reflexivity.
+Qed.
+
+Lemma reject_inv s g s' :
+  Inv s g -> g.(g_phase) = 0 -> do_reject s = Some s' ->
+  Inv s' (mkGhost 1 g.(g_par) [] [] g.(g_ms) 0).
+Proof.
+  intros I Hp R. unfold do_reject, reject_with, CODE_FIXED in R.
+  destruct (remove_locals (side s) 0 (Z.to_nat (next_bi s)) (send s)) as [m1|] eqn:R1; [|discriminate].
+  destruct (remove_locals (side s) 1 (Z.to_nat (next_uni s)) m1) as [m2|] eqn:R2; [|discriminate].
+  injection R as <-.
+  destruct (remove_locals_spec _ _ _ _ _ R1 (i_nodup _ _ I)) as (Nd1 & A1 & B1).
+  destruct (remove_locals_spec _ _ _ _ _ R2 Nd1) as (Nd2 & A2 & B2).
+  destruct (i_early _ _ I ltac:(lia)) as (M1 & M2 & _ & _).
+  (* every entry of [m2] is an untouched remote entry of the old map *)
+  assert (Hm2 : forall k v, lookup k m2 = Some v ->
+                 lookup k (send s) = Some v /\ id_init k <> side s /\ v = None).
+  { intros k v L.
+    destruct (Z.eq_dec (id_init k) (side s)) as [El|El].
+    - exfalso.
+      assert (~ is_loc (side s) 1 (Z.to_nat (next_uni s)) k) as Hn2
+        by (intros Hl; rewrite (A2 k Hl) in L; discriminate).
+      rewrite (B2 k Hn2) in L.
+      assert (~ is_loc (side s) 0 (Z.to_nat (next_bi s)) k) as Hn1
+        by (intros Hl; rewrite (A1 k Hl) in L; discriminate).
+      rewrite (B1 k Hn1) in L.
+      destruct (local_is_loc s g k I (lookup_in_keys _ _ _ L) El); contradiction.
+    - assert (Hn2 : ~ is_loc (side s) 1 (Z.to_nat (next_uni s)) k).
+      { intros (i & Hi & E). subst k. rewrite id_init_sid in El; pose proof (i_side _ _ I); lia. }
+      assert (Hn1 : ~ is_loc (side s) 0 (Z.to_nat (next_bi s)) k).
+      { intros (i & Hi & E). subst k. rewrite id_init_sid in El; pose proof (i_side _ _ I); lia. }
+      rewrite (B2 k Hn2), (B1 k Hn1) in L. split; [exact L|]. split; [exact El|].
+      eapply M1; eassumption. }
+  destruct I as [A B C D E1 F G H I J K1 L M].
+  constructor; gcbn; unfold get_next, get_max, early_facts in *; st; auto; try lia.
+  - rewrite sum_off_none; [reflexivity|]. intros k v Hin.
+    destruct (Hm2 k v (In_lookup _ _ _ Nd2 Hin)) as (_ & _ & E). exact E.
+  - intros k x Lk. destruct (Hm2 _ _ Lk) as (_ & _ & E). discriminate.
+  - intros d Hd. destruct (I d Hd) as (I1 & I2). destr_if; lia.
+  - intros k Hk. destruct (lookup k m2) as [v|] eqn:Lk; [|apply in_keys_lookup in Hk; contradiction].
+    destruct (Hm2 _ _ Lk) as (L0 & El & _).
+    destruct (K1 k (lookup_in_keys _ _ _ L0)) as (K2 & _). split; [exact K2|]. intros E. contradiction.
+  - intros _. split; [|split; [reflexivity|split; [intros Hq; discriminate|intros _; repeat split; lia]]].
+    intros k v Lk _. destruct (Hm2 _ _ Lk) as (_ & _ & E). exact E.
+Qed.
+
+(* ------------------------------------------------------------------------------------------ *)
+(** * Credit-preserving operations: [sc] *)
+
+Lemma sc_of_core s s' : core s = core s' -> sc s s'.
+Proof. exact (sc_core s s'). Qed.
+
+Ltac sc_core_eq := apply sc_of_core; core_eq.
+
+Lemma lookup_put k id x s :
+  lookup k (send (put id x s)) =
+  if k =? id then match lookup id (send s) with Some _ => Some (Some x) | None => None end
+  else lookup k (send s).
+Proof. unfold put. autorewrite with st. apply lookup_update. Qed.
+
+Lemma poll_transmit_credit m x a b enc x1 :
+  poll_transmit m x = (a, b, enc, x1) ->
+  s_offset x1 = s_offset x /\ s_max_data x1 = s_max_data x /\ s_state x1 = s_state x.
+Proof.
+  unfold poll_transmit. destruct (s_retx x) as [|[rs re] t]; intros E; injection E as _ _ _ <-;
+    autorewrite with st; auto.
+Qed.
+
+Lemma tx_loop_sc fuel : forall maxb buf s acc s' buf' fs okf,
+  tx_loop fuel maxb buf s acc = (s', buf', fs, okf) -> sc s s'.
+Proof.
+  induction fuel as [|fuel IH]; intros maxb buf s acc s' buf' fs okf T; cbn [tx_loop] in T.
+  - injection T as <- _ _ _. apply sc_refl.
+  - destruct (buf + 25 <? maxb); [|injection T as <- _ _ _; apply sc_refl].
+    destruct (pendq s) as [|id q] eqn:Pq; [injection T as <- _ _ _; apply sc_refl|].
+    assert (S1 : sc s (set_pendq q s)) by sc_core_eq.
+    destruct (lookup id (send (set_pendq q s))) as [[x|]|] eqn:L.
+    + destruct (s_state x =? 3).
+      * eapply sc_trans; [exact S1|eapply IH; exact T].
+      * destruct (poll_transmit (maxb - buf - 1 - vsize id) x) as [[[a b] enc] x1] eqn:P.
+        destruct (poll_transmit_credit _ _ _ _ _ _ P) as (Po & Pm & _).
+        eapply sc_trans; [exact S1|]. eapply sc_trans; [|eapply IH; exact T].
+        match goal with |- sc _ (if ?c then push_pending _ ?t else _) =>
+          assert (S2 : sc (set_pendq q s) t) end.
+        { eapply sc_put; [exact L| |]; destruct ((b =? s_offset x1) && ((s_state x1 =? 1) || (s_state x1 =? 2)));
+            autorewrite with st; congruence. }
+        destruct (is_pending _); [|exact S2].
+        eapply sc_trans; [exact S2|]. sc_core_eq.
+    + eapply sc_trans; [exact S1|eapply IH; exact T].
+    + eapply sc_trans; [exact S1|eapply IH; exact T].
+Qed.
+
+Lemma cb_loop_sc st : forall s, sc s (fst (cb_loop st s)).
+Proof.
+  induction st as [|id t IH]; intros s; cbn [cb_loop].
+  - cbn [fst]. sc_core_eq.
+  - destruct (lookup id (send s)) as [[x|]|] eqn:L; try apply IH.
+    assert (S1 : sc s (put id (set_s_cb false x) s))
+      by (eapply sc_put; [exact L| |]; autorewrite with st; reflexivity).
+    destruct ((s_state x =? 0) && (s_offset x <? s_max_data x)).
+    + cbn [fst]. eapply sc_trans; [exact S1|]. sc_core_eq.
+    + eapply sc_trans; [exact S1|apply IH].
+Qed.
+
+Lemma retry_stream_sc fixed id s s' : retry_stream fixed id s = Some s' -> sc s s'.
+Proof.
+  unfold retry_stream. destruct (lookup id (send s)) as [[x|]|] eqn:L;
+    try (intros E; injection E as <-; apply sc_refl).
+  destruct ((s_ulen x =? 0) && negb (s_fin_pending x)) eqn:Q; cbn [andb negb].
+  - destruct (negb (fixed && ((s_state x =? 1) || (s_state x =? 2)))); cbn [andb];
+      [intros E; injection E as <-; apply sc_refl|].
+    autorewrite with st. destruct (s_offset x =? s_ulen x); [|discriminate].
+    intros E; injection E as <-.
+    match goal with |- sc s (put id ?y (if ?c then s else push_pending id s)) =>
+      destruct c end.
+    + eapply sc_put; [exact L| |]; autorewrite with st; reflexivity.
+    + eapply sc_trans; [|eapply sc_put; [rewrite <- L; unfold push_pending; autorewrite with st; reflexivity| |];
+                          autorewrite with st; reflexivity]. sc_core_eq.
+  - destruct (s_offset x =? s_ulen x); [|discriminate].
+    intros E; injection E as <-.
+    match goal with |- sc s (put id ?y (if ?c then s else push_pending id s)) =>
+      destruct c end.
+    + eapply sc_put; [exact L| |]; autorewrite with st; reflexivity.
+    + eapply sc_trans; [|eapply sc_put; [rewrite <- L; unfold push_pending; autorewrite with st; reflexivity| |];
+                          autorewrite with st; reflexivity]. sc_core_eq.
+Qed.
+
+Lemma retry_dir_sc fixed d n : forall s s', retry_dir fixed d n s = Some s' -> sc s s'.
+Proof.
+  induction n as [|n IH]; intros s s' R; cbn [retry_dir] in R.
+  - injection R as <-. apply sc_refl.
+  - destruct (retry_dir fixed d n s) as [s1|] eqn:R1; [|discriminate].
+    eapply sc_trans; [apply IH; exact R1|eapply retry_stream_sc; exact R].
+Qed.
+
+Lemma retry_sc s s' : do_retry s = Some s' -> sc s s'.
+Proof.
+  unfold do_retry, retry_with.
+  destruct (retry_dir RETRY_FIXED 0 (Z.to_nat (next_bi s)) s) as [s1|] eqn:R1; [|discriminate].
+  destruct (retry_dir RETRY_FIXED 1 (Z.to_nat (next_uni s1)) s1) as [s2|] eqn:R2; [|discriminate].
+  intros E; injection E as <-.
+  eapply sc_trans; [eapply retry_dir_sc; exact R1|].
+  eapply sc_trans; [eapply retry_dir_sc; exact R2|]. sc_core_eq.
+Qed.
+
+(* ------------------------------------------------------------------------------------------ *)
+(** * Per-operation lemmas (credit invariant) *)
+
+Lemma finish_inv s g id s' r :
+  Inv s g -> (g.(g_phase) <> 2 -> id_init id = s.(side)) -> do_finish id s = Some (s', r) -> Inv s' g.
+Proof.
+  intros I Hloc F. unfold do_finish in F.
+  destruct (touch id s) as [[x s1]|] eqn:T; [|injection F as <- _; exact I].
+  destruct (touch_inv _ _ _ _ _ I T Hloc) as (I1 & L1 & _).
+  destruct (s_stop x); [injection F as <- _; exact I1|].
+  destruct (s_state x =? 0); [|injection F as <- _; exact I1].
+  injection F as <- _. eapply sc_inv; [exact I1|].
+  assert (S1 : sc s1 (put id (set_s_fin_pending true (set_s_state 1 x)) s1))
+    by (eapply sc_put; [exact L1| |]; autorewrite with st; reflexivity).
+  destruct (is_pending x); [exact S1|]. eapply sc_trans; [exact S1|sc_core_eq].
+Qed.
+
+Lemma reset_inv s g id s' r :
+  Inv s g -> g.(g_phase) <> 1 -> (g.(g_phase) <> 2 -> id_init id = s.(side)) ->
+  do_reset id s = Some (s', r) -> Inv s' g.
+Proof.
+  intros I Hp1 Hloc F. unfold do_reset in F.
+  destruct (touch id s) as [[x s1]|] eqn:T; [|injection F as <- _; exact I].
+  destruct (touch_inv _ _ _ _ _ I T Hloc) as (I1 & L1 & _).
+  destruct (s_state x =? 3); [injection F as <- _; exact I1|].
+  destruct (sb_unacked x) as [u|]; [|discriminate].
+  destruct (unacked_data s1 <? u) eqn:E; [discriminate|].
+  injection F as <- _.
+  eapply sc_inv; [apply (inv_unacked s1 g (unacked_data s1 - u) I1); [lia|exact Hp1]|].
+  eapply sc_put; [autorewrite with st; exact L1| |]; autorewrite with st; reflexivity.
+Qed.
+
+Lemma lost_inv s g f s' r : Inv s g -> do_lost f s = Some (s', r) -> Inv s' g.
+Proof.
+  intros I F. unfold do_lost in F. destruct f as [[[id a] b] fin].
+  destruct (lookup id (send s)) as [[x|]|] eqn:L; try (injection F as <- _; exact I).
+  destruct (s_unsent x <? b); [discriminate|]. injection F as <- _.
+  eapply sc_inv; [exact I|].
+  destruct (is_pending x).
+  - eapply sc_put; [exact L| |]; autorewrite with st; reflexivity.
+  - eapply sc_trans; [|eapply sc_put; [unfold push_pending; autorewrite with st; exact L| |];
+                        autorewrite with st; reflexivity]. sc_core_eq.
+Qed.
+
+Lemma sb_ack_credit a b x x' : sb_ack a b x = Some x' ->
+  s_offset x' = s_offset x /\ s_max_data x' = s_max_data x /\ s_state x' = s_state x.
+Proof.
+  unfold sb_ack. destruct (pop_acked _ _ _) as [[u l]|]; [|discriminate].
+  intros E; injection E as <-. autorewrite with st. auto.
+Qed.
+
+Lemma stream_freed_core s s' : stream_freed s = Some s' -> core s' = core s.
+Proof.
+  unfold stream_freed. destruct (send_streams s <? 1); [discriminate|].
+  intros E; injection E as <-. core_eq.
+Qed.
+
+(** An acknowledgement either updates the stream in place or removes it (finished and fully
+    acknowledged): then its final offset moves to [g_closed]. *)
+Lemma ack_inv s g f s' r :
+  Inv s g -> g.(g_phase) <> 1 -> do_ack f s = Some (s', r) ->
+  let '(id, _, _, _) := f in
+  Inv s' (mkGhost 2 g.(g_par) g.(g_md) g.(g_msd) g.(g_ms) (g.(g_closed) + removed_off id s s')).
+Proof.
+  intros I Hp1 F. destruct f as [[[id a] b] fin]. unfold do_ack in F.
+  pose proof (inv_phase2 _ _ I) as I2.
+  assert (Hsame : forall t, core t = core s ->
+            Inv t (mkGhost 2 (g_par g) (g_md g) (g_msd g) (g_ms g) (g_closed g + removed_off id s t))).
+  { intros t Ht. unfold removed_off.
+    assert (send t = send s) as -> by (unfold core in Ht; injection Ht; auto).
+    replace (g_closed g + match lookup id (send s) with Some (Some x) => match lookup id (send s) with Some _ => 0 | None => s_offset x end | _ => 0 end)
+      with (g_closed g) by (destruct (lookup id (send s)) as [[?|]|]; lia).
+    eapply Inv_ext; [symmetry; exact Ht|exact I2]. }
+  destruct (lookup id (send s)) as [[x|]|] eqn:L; try (injection F as <- _; apply Hsame; reflexivity).
+  destruct (s_state x =? 3); [injection F as <- _; apply Hsame; reflexivity|].
+  destruct (b <? a); [discriminate|]. destruct (unacked_data s <? b - a) eqn:E; [discriminate|].
+  destruct (sb_ack a b x) as [x1|] eqn:SA; [|discriminate].
+  destruct (sb_ack_credit _ _ _ _ SA) as (Ao & Am & As).
+  set (s0 := set_unacked_data (unacked_data s - (b - a)) s) in *.
+  assert (I0 : Inv s0 (mkGhost 2 (g_par g) (g_md g) (g_msd g) (g_ms g) (g_closed g))).
+  { apply inv_unacked; [exact I2|lia|cbn; lia]. }
+  assert (L0 : lookup id (send s0) = Some (Some x)) by (unfold s0; autorewrite with st; exact L).
+  assert (Hput : forall y, s_offset y = s_offset x -> s_max_data y = s_max_data x ->
+            Inv (put id y s0) (mkGhost 2 (g_par g) (g_md g) (g_msd g) (g_ms g)
+                                 (g_closed g + removed_off id s (put id y s0)))).
+  { intros y Ho Hm. unfold removed_off. rewrite L, lookup_put, Z.eqb_refl, L0.
+    replace (g_closed g + 0) with (g_closed g) by lia.
+    eapply sc_inv; [exact I0|]. eapply sc_put; [exact L0|exact Ho|exact Hm]. }
+  destruct ((s_state x1 =? 1) || (s_state x1 =? 2)).
+  - destruct (((s_state x1 =? 2) || fin) && (s_ulen (set_s_state (if (s_state x1 =? 2) || fin then 2 else 1) x1) =? 0)).
+    + destruct (stream_freed (set_send (remove id (send s0)) s0)) as [s2|] eqn:SF; [|discriminate].
+      injection F as <- _.
+      pose proof (stream_freed_core _ _ SF) as Hc.
+      pose proof (inv_remove s0 _ id x I0 L0) as Hr. gcbn.
+      assert (Hro : removed_off id s (set_events (events s2 ++ [[3; id]]) s2) = s_offset x).
+      { unfold removed_off. rewrite L. autorewrite with st.
+        assert (send s2 = remove id (send s0)) as -> by (unfold core in Hc; injection Hc; intros; autorewrite with st in *; assumption).
+        rewrite lookup_remove_eq; [reflexivity|]. unfold s0. autorewrite with st. exact (i_nodup _ _ I). }
+      rewrite Hro. eapply Inv_ext; [|exact Hr].
+      transitivity (core s2); [symmetry; exact Hc|core_eq].
+    + injection F as <- _. apply Hput; autorewrite with st; congruence.
+  - injection F as <- _. apply Hput; congruence.
+Qed.
+
+Lemma reset_acked_inv s g id s' r :
+  Inv s g -> do_reset_acked id s = Some (s', r) ->
+  Inv s' (mkGhost 2 g.(g_par) g.(g_md) g.(g_msd) g.(g_ms) (g.(g_closed) + removed_off id s s')).
+Proof.
+  intros I F. unfold do_reset_acked in F.
+  pose proof (inv_phase2 _ _ I) as I2.
+  assert (Hsame : Inv s (mkGhost 2 (g_par g) (g_md g) (g_msd g) (g_ms g) (g_closed g + removed_off id s s))).
+  { unfold removed_off.
+    replace (g_closed g + match lookup id (send s) with Some (Some x) => match lookup id (send s) with Some _ => 0 | None => s_offset x end | _ => 0 end)
+      with (g_closed g) by (destruct (lookup id (send s)) as [[?|]|]; lia). exact I2. }
+  destruct (lookup id (send s)) as [[x|]|] eqn:L; try (injection F as <- _; exact Hsame).
+  destruct (s_state x =? 3); [|injection F as <- _; exact Hsame].
+  destruct (stream_freed (set_send (remove id (send s)) s)) as [s2|] eqn:SF; [|discriminate].
+  injection F as <- _.
+  pose proof (stream_freed_core _ _ SF) as Hc.
+  pose proof (inv_remove s _ id x I2 L) as Hr. gcbn.
+  assert (Hro : removed_off id s s2 = s_offset x).
+  { unfold removed_off. rewrite L.
+    assert (send s2 = remove id (send s)) as -> by (unfold core in Hc; injection Hc; intros; autorewrite with st in *; assumption).
+    rewrite lookup_remove_eq; [reflexivity|exact (i_nodup _ _ I)]. }
+  rewrite Hro. eapply Inv_ext; [symmetry; exact Hc|exact Hr].
+Qed.
+
+Lemma on_stream_frame_core id s : core (on_stream_frame id s) = core s.
+Proof. unfold on_stream_frame. destr_if; core_eq. Qed.
+
+Lemma stop_sending_inv s g id code :
+  Inv s g -> g.(g_phase) = 2 -> Inv (do_stop_sending id code s) g.
+Proof.
+  intros I Hp. unfold do_stop_sending.
+  destruct (touch id s) as [[x s1]|] eqn:T; [|exact I].
+  destruct (touch_inv _ _ _ _ _ I T ltac:(lia)) as (I1 & L1 & _).
+  destruct (s_stop x); [exact I1|].
+  eapply Inv_ext; [symmetry; apply on_stream_frame_core|].
+  eapply sc_inv; [exact I1|].
+  eapply sc_trans; [eapply (sc_put s1 id x (set_s_stop (Some code) x) L1); autorewrite with st; reflexivity|].
+  sc_core_eq.
+Qed.
+
+Lemma max_stream_data_inv s g id v s' r :
+  Inv s g -> g.(g_phase) = 2 -> 0 <= v -> do_max_stream_data id v s = Some (s', r) ->
+  Inv s' (mkGhost 2 g.(g_par) g.(g_md)
+            (if arg r 0 =? 0 then (id, v) :: g.(g_msd) else g.(g_msd)) g.(g_ms) g.(g_closed)).
+Proof.
+  intros I Hp Hv F. unfold do_max_stream_data in F.
+  assert (Hg : mkGhost 2 (g_par g) (g_md g) (g_msd g) (g_ms g) (g_closed g) = g)
+    by (destruct g; cbn in *; f_equal; lia).
+  destruct (negb (id_init id =? side s) && (id_dir id =? 1)).
+  { injection F as <- <-. cbn [arg nth]. red_eqb. cbv iota. rewrite Hg. exact I. }
+  rewrite (write_limit_some _ _ I) in F.
+  destruct (touch id s) as [[x s1]|] eqn:T.
+  2:{ destruct ((id_init id =? side s) && (get_next (id_dir id) s <=? id_index id)).
+      - injection F as <- <-. cbn [arg nth]. red_eqb. cbv iota. rewrite Hg. exact I.
+      - injection F as <- <-. cbn [arg nth]. red_eqb. cbv iota.
+        eapply Inv_ext; [symmetry; apply on_stream_frame_core|].
+        apply inv_ghost_msd; assumption. }
+  destruct (touch_inv _ _ _ _ _ I T ltac:(lia)) as (I1 & L1 & R1 & _).
+  injection F as <- <-. cbn [arg nth]. red_eqb. cbv iota.
+  eapply Inv_ext; [symmetry; apply on_stream_frame_core|].
+  pose proof (inv_ghost_msd s1 g id v I1 Hp) as Ig.
+  destruct ((s_max_data x <? v) && (s_state x =? 0)) eqn:Raise; [|exact Ig].
+  destruct (i_str _ _ I1 id x L1) as (X1 & X2).
+  assert (Hraise : forall y, s_offset y = s_offset x -> s_max_data y = v ->
+            Inv (put id y s1) (mkGhost 2 (g_par g) (g_md g) ((id, v) :: g_msd g) (g_ms g) (g_closed g))).
+  { intros y Ho Hm. eapply (inv_set_entry s1 _ id (Some x) y Ig L1); cbn [offo]; try lia.
+    - unfold delivered_stream_limit. gcbn. rewrite kmax_cons, Z.eqb_refl. lia.
+    - gcbn. lia. }
+  destruct (s_offset x =? s_max_data x).
+  - destruct (0 <? Z.min (max_data s - data_sent s) (Z.max 0 (send_window s - unacked_data s))).
+    + eapply Inv_ext; [|apply (Hraise (set_s_max_data v x)); autorewrite with st; reflexivity]. core_eq.
+    + autorewrite with st. destruct (s_cb x).
+      * apply Hraise; autorewrite with st; reflexivity.
+      * eapply Inv_ext; [|apply (Hraise (set_s_cb true (set_s_max_data v x))); autorewrite with st; reflexivity].
+        core_eq.
+  - apply Hraise; autorewrite with st; reflexivity.
+Qed.
+
+Lemma max_streams_inv s g msc d c s' r :
+  Inv s g -> g.(g_phase) = 2 -> do_max_streams msc d c s = Some (s', r) ->
+  Inv s' (mkGhost 2 g.(g_par) g.(g_md) g.(g_msd)
+            (if arg r 0 =? 0 then (norm_dir d, c) :: g.(g_ms) else g.(g_ms)) g.(g_closed)).
+Proof.
+  intros I Hp F. unfold do_max_streams in F.
+  assert (Hg : mkGhost 2 (g_par g) (g_md g) (g_msd g) (g_ms g) (g_closed g) = g)
+    by (destruct g; cbn in *; f_equal; lia).
+  pose proof (norm_dir_range d) as Hd.
+  destruct (msc <? c); [injection F as <- <-; cbn [arg nth]; red_eqb; cbv iota; rewrite Hg; exact I|].
+  destruct (get_max (norm_dir d) s <? c) eqn:E; injection F as <- <-; cbn [arg nth]; red_eqb; cbv iota.
+  - eapply Inv_ext; [|apply (inv_max_streams s g (norm_dir d) c I Hp Hd); lia].
+    unfold set_blocked, set_max. destr_if; core_eq.
+  - apply inv_ghost_ms_noop; auto. lia.
+Qed.
+
+Lemma poll_inv s g s' r : Inv s g -> do_poll s = Some (s', r) -> Inv s' g.
+Proof.
+  intros I F. unfold do_poll, pop_event in F.
+  destruct (opened_bi s); [injection F as <- _; eapply Inv_ext; [|exact I]; core_eq|].
+  rewrite (write_limit_some _ _ I) in F.
+  destruct (0 <? _).
+  - pose proof (cb_loop_sc (conn_blocked s) s) as S1.
+    destruct (cb_loop (conn_blocked s) s) as [s1 [id|]]; cbn [fst] in S1.
+    + injection F as <- _. eapply sc_inv; eassumption.
+    + destruct (events s1); injection F as <- _.
+      * eapply sc_inv; eassumption.
+      * eapply sc_inv; [exact I|]. eapply sc_trans; [exact S1|sc_core_eq].
+  - destruct (events s); injection F as <- _; [exact I|]. eapply Inv_ext; [|exact I]. core_eq.
+Qed.
+
+Lemma transmit_inv s g maxb s' r : Inv s g -> do_transmit maxb s = Some (s', r) -> Inv s' g.
+Proof.
+  intros I F. unfold do_transmit in F.
+  destruct (tx_loop _ maxb 0 s []) as [[[s1 buf] fs] okf] eqn:T.
+  pose proof (tx_loop_sc _ _ _ _ _ _ _ _ _ T) as S1.
+  injection F as <- _.
+  eapply sc_inv; [exact I|]. eapply sc_trans; [exact S1|sc_core_eq].
+Qed.
+
+Lemma accept_inv s g d s' r : Inv s g -> do_accept d s = Some (s', r) -> Inv s' g.
+Proof.
+  intros I F. unfold do_accept in F. destr_if; injection F as <- _; try exact I.
+  eapply Inv_ext; [|exact I]. core_eq.
+Qed.
+
+Lemma retry_inv s g s' : Inv s g -> do_retry s = Some s' -> Inv s' g.
+Proof. intros I R. eapply sc_inv; [exact I|apply retry_sc; exact R]. Qed.
+
+(* ------------------------------------------------------------------------------------------ *)
+(** * The full machine preserves the credit invariant *)
+
+Lemma inv_ph s g b :
+  Inv s g -> g.(g_phase) <> 1 ->
+  Inv s (mkGhost (if (g.(g_phase) =? 0) && b then 0 else 2) g.(g_par) g.(g_md) g.(g_msd) g.(g_ms) g.(g_closed)).
+Proof.
+  intros I Hp. destruct ((g_phase g =? 0) && b) eqn:E; [|apply inv_phase2; exact I].
+  assert (mkGhost 0 (g_par g) (g_md g) (g_msd g) (g_ms g) (g_closed g) = g) as ->
+    by (destruct g; cbn in *; f_equal; lia).
+  exact I.
+Qed.
+
+Ltac op_case Hc :=
+  unfold gstep, adm, gupd, apply, is_neutral, is_app; rewrite Hc; red_eqb; cbv iota;
+  cbn [orb andb negb].
+
+Lemma gstep_inv s g op :
+  Inv s g -> Inv (fst (gstep (s, g) op)) (snd (gstep (s, g) op)).
+Proof.
+  intros I. pose proof (i_phase _ _ I) as Hph.
+  destruct (g_phase g =? 1) eqn:P1.
+  { (* after a rejection only the new parameters are admissible *)
+    unfold gstep, adm. rewrite P1.
+    destruct (arg op 0 =? 1) eqn:C1; cbn [andb]; [|exact I].
+    destruct (params_valid (params_of op)) eqn:V; [|exact I].
+    assert (Hc : arg op 0 = 1) by lia. unfold apply, gupd. rewrite Hc. red_eqb. cbv iota.
+    rewrite V, P1. cbn [fst snd ok].
+    pose proof (inv_params_fresh s g (params_of op) I ltac:(lia) V) as H.
+    destruct (i_early _ _ I ltac:(lia)) as (_ & M2 & _ & M4).
+    destruct (M4 ltac:(lia)) as (_ & _ & _ & _ & _ & N6 & N7).
+    rewrite M2, N6 in *. exact H. }
+  assert (Hp1 : g_phase g <> 1) by lia.
+  destruct (arg op 0 =? 21) eqn:C21.
+  { assert (Hc : arg op 0 = 21) by lia. op_case Hc. rewrite P1.
+    destruct ((g_phase g =? 0) && (side s =? 0)) eqn:A; [|exact I].
+    destruct (do_retry s) as [s'|] eqn:R; cbn [fst snd ok]; [|exact I].
+    apply (inv_ph s' g true); [|exact Hp1].
+    eapply retry_inv; eassumption. }
+  destruct (arg op 0 =? 2) eqn:C2.
+  { assert (Hc : arg op 0 = 2) by lia. op_case Hc. rewrite P1.
+    destruct (do_open (arg op 1) s) as [[s' r]|] eqn:O; cbn [fst snd]; [|exact I].
+    apply (inv_ph s' g true); [|exact Hp1].
+    unfold do_open in O. pose proof (norm_dir_range (arg op 1)) as Hd.
+    destruct (get_max (norm_dir (arg op 1)) s <=? get_next (norm_dir (arg op 1)) s) eqn:E.
+    - injection O as <- _. eapply Inv_ext; [|exact I]. unfold set_blocked. destr_if; core_eq.
+    - destruct (lookup _ (send s)) eqn:L; [discriminate|]. injection O as <- _.
+      eapply Inv_ext; [|apply (inv_open s g (norm_dir (arg op 1)) I Hp1 Hd); [lia|exact L]].
+      core_eq. }
+  destruct (arg op 0 =? 9) eqn:C9.
+  { assert (Hc : arg op 0 = 9) by lia. op_case Hc. rewrite P1.
+    destruct (do_transmit (arg op 1) s) as [[s' r]|] eqn:O; cbn [fst snd]; [|exact I].
+    apply (inv_ph s' g true); [|exact Hp1]. eapply transmit_inv; eassumption. }
+  destruct (arg op 0 =? 13) eqn:C13.
+  { assert (Hc : arg op 0 = 13) by lia. op_case Hc. rewrite P1. cbn [fst snd ok].
+    apply (inv_ph _ g true); [|exact Hp1]. eapply Inv_ext; [|exact I]. core_eq. }
+  destruct (arg op 0 =? 15) eqn:C15.
+  { assert (Hc : arg op 0 = 15) by lia. op_case Hc. rewrite P1.
+    destruct (do_poll s) as [[s' r]|] eqn:O; cbn [fst snd]; [|exact I].
+    apply (inv_ph s' g true); [|exact Hp1]. eapply poll_inv; eassumption. }
+  destruct (arg op 0 =? 19) eqn:C19.
+  { assert (Hc : arg op 0 = 19) by lia. op_case Hc. rewrite P1.
+    destruct (observe s); cbn [fst snd ok]; [|exact I].
+    apply (inv_ph s g true); assumption. }
+  destruct (arg op 0 =? 3) eqn:C3.
+  { assert (Hc : arg op 0 = 3) by lia. op_case Hc. rewrite P1.
+    destruct (app_ok s (arg op 1) && (0 <=? arg op 2)) eqn:A; [|exact I].
+    destruct (do_write (arg op 1) (arg op 2) s) as [[s' r]|] eqn:O; cbn [fst snd]; [|exact I].
+    eapply write_inv; [apply (inv_ph s g (id_local (side s) (arg op 1)) I Hp1)|exact O|lia|].
+    gcbn. unfold id_local. destruct ((g_phase g =? 0) && (id_init (arg op 1) =? side s)) eqn:E; lia. }
+  destruct (arg op 0 =? 4) eqn:C4.
+  { assert (Hc : arg op 0 = 4) by lia. op_case Hc. rewrite P1.
+    destruct (app_ok s (arg op 1) && (0 <=? arg op 2)) eqn:A; [|exact I].
+    destruct (do_finish (arg op 1) s) as [[s' r]|] eqn:O; cbn [fst snd]; [|exact I].
+    eapply finish_inv; [apply (inv_ph s g (id_local (side s) (arg op 1)) I Hp1)| |exact O].
+    gcbn. unfold id_local. destruct ((g_phase g =? 0) && (id_init (arg op 1) =? side s)) eqn:E; lia. }
+  destruct (arg op 0 =? 5) eqn:C5.
+  { assert (Hc : arg op 0 = 5) by lia. op_case Hc. rewrite P1.
+    destruct (app_ok s (arg op 1) && (0 <=? arg op 2)) eqn:A; [|exact I].
+    destruct (do_reset (arg op 1) s) as [[s' r]|] eqn:O; cbn [fst snd]; [|exact I].
+    eapply reset_inv; [apply (inv_ph s g (id_local (side s) (arg op 1)) I Hp1)| | |exact O].
+    - gcbn. destr_if; lia.
+    - gcbn. unfold id_local. destruct ((g_phase g =? 0) && (id_init (arg op 1) =? side s)) eqn:E; lia. }
+  destruct (arg op 0 =? 1) eqn:C1.
+  { assert (Hc : arg op 0 = 1) by lia. op_case Hc. rewrite P1.
+    destruct ((g_phase g =? 0) && params_valid (params_of op) && pge_params (params_of op) (g_par g)) eqn:A; [|exact I].
+    cbn [fst snd ok].
+    assert (V : params_valid (params_of op) = true) by (destruct (params_valid (params_of op)); [reflexivity|rewrite Bool.andb_false_r in A; discriminate]).
+    rewrite V. apply inv_params_accept; auto; try lia.
+    destruct (pge_params (params_of op) (g_par g)); [reflexivity|rewrite Bool.andb_false_r in A; discriminate]. }
+  destruct (arg op 0 =? 14) eqn:C14.
+  { assert (Hc : arg op 0 = 14) by lia. op_case Hc. rewrite P1.
+    destruct (g_phase g =? 0) eqn:P0; [|exact I].
+    destruct (do_reject s) as [s'|] eqn:R; cbn [fst snd ok]; [|exact I].
+    eapply reject_inv; eauto. lia. }
+  destruct (arg op 0 =? 6) eqn:C6.
+  { assert (Hc : arg op 0 = 6) by lia. op_case Hc. rewrite P1.
+    destruct (is_varint (arg op 1)) eqn:A; [|exact I]. cbn [fst snd ok].
+    rewrite Bool.andb_false_r.
+    pose proof (max_data_inv s _ (arg op 1) (inv_phase2 _ _ I)) as Hm. gcbn.
+    apply Hm; [unfold is_varint in A; lia|lia]. }
+  destruct (arg op 0 =? 7) eqn:C7.
+  { assert (Hc : arg op 0 = 7) by lia. op_case Hc. rewrite P1.
+    destruct ((0 <=? arg op 1) && (0 <=? arg op 2)) eqn:A; [|exact I].
+    destruct (do_max_stream_data (arg op 1) (arg op 2) s) as [[s' r]|] eqn:O; cbn [fst snd]; [|exact I].
+    rewrite Bool.andb_false_r.
+    pose proof (max_stream_data_inv s _ (arg op 1) (arg op 2) s' r (inv_phase2 _ _ I) eq_refl ltac:(lia) O) as Hm.
+    gcbn. exact Hm. }
+  destruct (arg op 0 =? 8) eqn:C8.
+  { assert (Hc : arg op 0 = 8) by lia. op_case Hc. rewrite P1.
+    destruct (0 <=? arg op 2) eqn:A; [|exact I].
+    destruct (do_max_streams MAX_STREAM_COUNT_MODEL (arg op 1) (arg op 2) s) as [[s' r]|] eqn:O; cbn [fst snd]; [|exact I].
+    rewrite Bool.andb_false_r.
+    pose proof (max_streams_inv s _ _ (arg op 1) (arg op 2) s' r (inv_phase2 _ _ I) eq_refl O) as Hm.
+    gcbn. exact Hm. }
+  destruct (arg op 0 =? 10) eqn:C10.
+  { assert (Hc : arg op 0 = 10) by lia. op_case Hc. rewrite P1.
+    destruct (do_log true (arg op 1) s) as [[s' r]|] eqn:O; cbn [fst snd]; [|exact I].
+    rewrite Bool.andb_false_r. unfold do_log in O. unfold frame_id.
+    destruct (arg op 1 <? 0); [injection O as <- _; unfold removed_off; destruct (lookup (-1) (send s)) as [[?|]|];
+      replace (g_closed g + 0) with (g_closed g) by lia; apply inv_phase2; exact I|].
+    destruct (log_get (Z.to_nat (arg op 1)) (log s)) as [[f l]|].
+    - destruct f as [[[fid a] b] fin].
+      assert (I' : Inv (set_log l s) g) by (eapply Inv_ext; [|exact I]; core_eq).
+      pose proof (ack_inv (set_log l s) g (fid, a, b, fin) s' r I' Hp1 O) as Ha. cbv beta iota zeta in Ha.
+      unfold removed_off in *. autorewrite with st in Ha. exact Ha.
+    - injection O as <- _. unfold removed_off. destruct (lookup (-1) (send s)) as [[?|]|];
+        replace (g_closed g + 0) with (g_closed g) by lia; apply inv_phase2; exact I. }
+  destruct (arg op 0 =? 11) eqn:C11.
+  { assert (Hc : arg op 0 = 11) by lia. op_case Hc. rewrite P1.
+    destruct (do_log false (arg op 1) s) as [[s' r]|] eqn:O; cbn [fst snd]; [|exact I].
+    rewrite Bool.andb_false_r. apply inv_phase2. unfold do_log in O.
+    destruct (arg op 1 <? 0); [injection O as <- _; exact I|].
+    destruct (log_get (Z.to_nat (arg op 1)) (log s)) as [[f l]|]; [|injection O as <- _; exact I].
+    eapply lost_inv; [|exact O]. eapply Inv_ext; [|exact I]. core_eq. }
+  destruct (arg op 0 =? 17) eqn:C17.
+  { assert (Hc : arg op 0 = 17) by lia. op_case Hc. rewrite P1.
+    destruct (do_reset_acked (arg op 1) s) as [[s' r]|] eqn:O; cbn [fst snd]; [|exact I].
+    rewrite Bool.andb_false_r. eapply reset_acked_inv; eassumption. }
+  destruct (arg op 0 =? 18) eqn:C18.
+  { assert (Hc : arg op 0 = 18) by lia. op_case Hc. rewrite P1.
+    destruct (do_accept (arg op 1) s) as [[s' r]|] eqn:O; cbn [fst snd]; [|exact I].
+    rewrite Bool.andb_false_r. apply inv_phase2. eapply accept_inv; eassumption. }
+  destruct (arg op 0 =? 16) eqn:C16.
+  { assert (Hc : arg op 0 = 16) by lia. op_case Hc. rewrite P1.
+    destruct ((0 <=? arg op 1) && is_varint (arg op 2)) eqn:A; [|exact I].
+    assert (V : is_varint (arg op 2) = true) by (destruct (is_varint (arg op 2)); [reflexivity|rewrite Bool.andb_false_r in A; discriminate]).
+    rewrite V. cbn [fst snd ok]. rewrite Bool.andb_false_r.
+    apply stop_sending_inv; [apply inv_phase2; exact I|reflexivity]. }
+  (* any other opcode is inadmissible *)
+  unfold gstep, adm, is_neutral, is_app. rewrite P1, C21, C2, C9, C13, C15, C19, C3, C4, C5, C1, C14, C6, C7, C8, C10, C11, C17, C18, C16.
+  cbn [orb]. exact I.
+Qed.
+
+Theorem grun_inv : forall i s g, Inv s g -> Inv (fst (grun i (s, g))) (snd (grun i (s, g))).
+Proof.
+  induction i as [|op t IH]; intros s g I; [exact I|].
+  unfold grun in *. cbn [fold_left].
+  pose proof (gstep_inv s g op I) as H. destruct (gstep (s, g) op) as [s1 g1].
+  apply IH. exact H.
+Qed.
+
+Theorem reachable_inv sd mrb sw p0 i s g :
+  0 <= sd <= 1 -> params_valid p0 = true ->
+  grun i (start sd mrb sw p0) = (s, g) -> Inv s g.
+Proof.
+  intros Hs Hv R. pose proof (grun_inv i _ _ (inv_start sd mrb sw p0 Hs Hv)) as H.
+  unfold start in *. cbn [fst snd] in H. rewrite R in H. exact H.
 Qed.
